@@ -85,6 +85,14 @@ struct DocState
     DocState() { liaison.reset(new XalanSourceTreeParserLiaison(domSupport)); domSupport.setParserLiaison(liaison.get()); }
 };
 
+// expanded name: "local" in no namespace, "{uri}local" otherwise
+static std::string expanded(const XalanNode* n)
+{
+    const XalanDOMString& uri = n->getNamespaceURI();
+    if (uri.empty()) return narrow(n->getNodeName());
+    return "{" + narrow(uri) + "}" + narrow(DOMServices::getLocalNameOfNode(*n));
+}
+
 static void number(DocState& d, XalanNode* n, int par, std::ostringstream& o)
 {
     const int me = int(d.nodes.size());
@@ -94,8 +102,8 @@ static void number(DocState& d, XalanNode* n, int par, std::ostringstream& o)
     switch (n->getNodeType())
     {
     case XalanNode::DOCUMENT_NODE: o << " r"; break;
-    case XalanNode::ELEMENT_NODE: o << " e:" << narrow(n->getNodeName()) << ":" << par; break;
-    case XalanNode::ATTRIBUTE_NODE: o << " a:" << narrow(n->getNodeName()) << ":" << par; break;
+    case XalanNode::ELEMENT_NODE: o << " e:" << expanded(n) << ":" << par; break;
+    case XalanNode::ATTRIBUTE_NODE: o << " a:" << expanded(n) << ":" << par; break;
     case XalanNode::TEXT_NODE: o << " t::" << par; break;
     case XalanNode::COMMENT_NODE: o << " c::" << par; break;
     case XalanNode::PROCESSING_INSTRUCTION_NODE: o << " p:" << narrow(n->getNodeName()) << ":" << par; break;
